@@ -339,22 +339,30 @@ example :
     mapLabelmapToSubstratesI [.pos "A" 0, .pos "A" 1, .pos "A" 2] [-4, 0, 1]
         = .error .indexError := ⟨rfl, rfl⟩
 
-/-- **coefficients that are not Python `int`s** (what the driver runs, `linearBuildP`): the linear
-    mapper's `_unpack_stoichiometries` raises `NotImplementedError` for a `Derived` coefficient (and
-    nothing else); a `float` goes through `int()`, so an integer-valued float is read as that integer
-    (`{"A": -1.0, "B": 2.0}` as `{"A": -1, "B": 2}`; `int()` truncates towards zero: 5/2 ↦ 2,
-    −5/2 ↦ −2, 1/2 ↦ 0); with no raw coefficients listed the entry point is `linearBuildI` -/
-theorem C16_noninteger_coefficients :
-    (∀ st : List (Name × Coef), (∃ kc ∈ st, kc.2 = .derived) →
-      unpackLinRaw st = .error .notImplementedError) ∧
-    (∀ (st : List (Name × Coef)) e, unpackLinRaw st = .error e → e = .notImplementedError) ∧
+/-- **coefficients as the base model stores them** (`int | float | Derived`; what the driver runs,
+    `linearBuildP`).  After repo commit "fix: LinearLabelMapper refuses a fractional stoichiometric
+    coefficient ..." the linear mapper's `_unpack_stoichiometries` reads every whole number the same
+    way, whether written `-1` or `-1.0` — exactly like `LabelMapper`'s (`C05_raw_coefficients`), so
+    both mappers see the same integer stoichiometry —; the only rejections are a `Derived`
+    (`NotImplementedError`) and a fractional float (`ValueError`: before the repair `int()` silently
+    truncated 5/2 to 2 and 1/2 to 0), whichever comes first; with no raw coefficients listed the entry
+    point is `linearBuildI` -/
+theorem C16_raw_coefficients :
     (∀ l : List ((Name × Int) × Bool),
-      unpackLinRaw (l.map fun x => asRaw x.1 x.2) = .ok (unpackLin (l.map (·.1)))) ∧
-    (∀ v : Int, pyTrunc (v : Rat) = v) ∧
-    (pyTrunc (5/2) = 2 ∧ pyTrunc (-5/2) = -2 ∧ pyTrunc (1/2) = 0) ∧
+      unpackLinRaw (l.map fun x => asRaw x.1 x.2) = .ok (unpackLin (l.map (·.1))) ∧
+      intCoefs (l.map fun x => asRaw x.1 x.2) = .ok (l.map (·.1))) ∧
+    (∀ (st : List (Name × Coef)) e, unpackLinRaw st = .error e →
+      e = .notImplementedError ∨ e = .valueError) ∧
+    (∀ (pre : List ((Name × Int) × Bool)) k post,
+      unpackLinRaw ((pre.map fun x => asRaw x.1 x.2) ++ (k, Coef.derived) :: post)
+        = .error .notImplementedError) ∧
+    (∀ (pre : List ((Name × Int) × Bool)) k q post, ((pyTrunc q : Int) : Rat) ≠ q →
+      unpackLinRaw ((pre.map fun x => asRaw x.1 x.2) ++ (k, Coef.float q) :: post) = .error .valueError) ∧
     (∀ baseRxns lv maps il, linearBuildP baseRxns lv maps [] il = linearBuildI baseRxns lv maps il) :=
-  ⟨unpackLinRaw_derived, fun st e h => unpackLinRaw_error h, unpackLinRaw_integral, pyTrunc_int,
-   by decide +kernel, linearBuildP_nil⟩
+  ⟨fun l => ⟨unpackLinRaw_integral l, intCoefs_integral l⟩, fun st e h => unpackLinRaw_error h,
+   fun pre k post => (unpackLinRaw_first_bad pre k .derived post).1 rfl,
+   fun pre k q post hq => (unpackLinRaw_first_bad pre k (.float q) post).2 q rfl hq,
+   linearBuildP_nil⟩
 
 /-- the facts regenerated from the current `linear_label_map.py` by `translate/c16.py` are the ones
     the model is written for: every mirrored function has its modelled statement shape (no decorator,
